@@ -3,7 +3,7 @@ CONSTANTS
   MaxNodes = 4
   Keys = {1}
   Leafs = {101, 160}
-  Shapes = {200, 210}
+  Shapes = {200, 210, 223}
   MaxLen = 2
   Acts = {"dict", "list", "clone", "flags", "forget"}
   Mirror = FALSE
